@@ -417,6 +417,13 @@ func runDID(kind string, doc *J, note string) {
 			rec.Trivial, rec.Class = true, "did-error:"+firstWords(err.Error())
 			rec.Observed = map[string]string{"error": err.Error()}
 
+			// refused because of a time text or a proof: the model must refuse the document too
+			if e := err.Error(); (strings.Contains(e, "proof.") || strings.Contains(e, "parsing time") || strings.Contains(e, "Time.UnmarshalJSON") ||
+				strings.Contains(e, "illegal base64") || strings.Contains(e, "unsupported encoding")) && doc.coqable() && keyEncodingsModelled(doc) {
+				rec.Coq = "CDIDR " + doc.Coq()
+				rec.Class = "did-refused:time-or-proof:" + firstWords(e)
+			}
+
 			if strings.Contains(err.Error(), "does not exist in did doc") {
 				// a reference the resolver cannot follow (absolute id written with another prefix): not a codec matter
 				return
